@@ -12,6 +12,11 @@ def run(prop, path):
     eng = p.get("engine")
     t = p["trace"]
     mode = "re-executed"
+    if t.get("recorded"):
+        # recorded while the repository's own test `t["test"]` ran: re-record by running the tests again (any check does), here the
+        # recorded history itself is judged again
+        print("trace recorded from the repository's test %s" % t.get("test"))
+        eng_rec, eng = eng, "recorded"
     if eng == "DataModelTrace":
         import dm
         nt = dm.run_history(t["id"], t["cfg"], [bytes(e["req"]) for e in t["ev"]], path=t.get("path", "direct"))
@@ -50,7 +55,7 @@ def run(prop, path):
     else:
         mode = "recorded trace re-validated (this engine's inputs are not re-executable from the file)"
         nt = t
-        module = eng if eng else "DataModelTrace"
+        module = (eng_rec if eng == "recorded" else eng) or "DataModelTrace"
         v, _ = validate_traces(module, module + ".cfg", [t], shards=1)
     verdict = v[nt["id"]]
     print("replay of %s: %s; TLC verdict %s %s at step %s" % (path, mode, verdict["status"], verdict["clauses"], verdict["step"]))
